@@ -23,6 +23,8 @@ func c10Abstract(c *core.Ctx) {
 	c10Unescape(c)
 	c10Files(c)
 	c10Bounds(c)
+	c10Descriptors(c)
+	c10FunctionPositions(c)
 }
 
 func c10Unescape(c *core.Ctx) {
